@@ -34,6 +34,13 @@ def newRel (U : M3 Int) (x : V3 K) : V3 K := M3.vecMul x (M3.inv (castM U : M3 K
 
 def InCell (t : V3 K) : Prop := 0 ≤ t.x ∧ t.x < 1 ∧ 0 ≤ t.y ∧ t.y < 1 ∧ 0 ≤ t.z ∧ t.z < 1
 
+/-- inside the cell, faces on both sides included (`0 ≤ s ≤ 1`): where an atom of the *input* may be stored (an atom
+    on a face may be listed on the far face, relative coordinate 1). -/
+def InBox (t : V3 K) : Prop := 0 ≤ t.x ∧ t.x ≤ 1 ∧ 0 ≤ t.y ∧ t.y ≤ 1 ∧ 0 ≤ t.z ∧ t.z ≤ 1
+
+theorem InCell.inBox {t : V3 K} (h : InCell t) : InBox t :=
+  ⟨h.1, le_of_lt h.2.1, h.2.2.1, le_of_lt h.2.2.2.1, h.2.2.2.2.1, le_of_lt h.2.2.2.2.2⟩
+
 /-- `n` is the lattice shift of an image, of the atom with relative coordinates `s`, that lies in the new cell. -/
 def Rep (U : M3 Int) (s : V3 K) (n : V3 Int) : Prop := InCell (newRel U (s + castV n))
 
